@@ -48,15 +48,16 @@ def _defines(h):
 
 def relevant_hyps(ob, mode):
     """hypothesis selection (dropping hypotheses is sound: it only weakens the query).
-    Definitions of the symbols the goal mentions are followed transitively; a fact is kept when all its rare symbols are
-    already relevant (mode 1: definitions + small quantifier-free facts only; 2: + such facts; 3: + facts sharing a symbol)."""
+    `mode` rounds of closure: a hypothesis is kept when it shares a *rare* symbol (one that occurs in few hypotheses) with the
+    goal or with a hypothesis kept in an earlier round; definitions of kept symbols are always followed; small quantifier-free
+    facts (bounds, lengths, branch conditions) are always kept."""
     hyps = list(ob.hyps)
     syms = [symbols(h) for h in hyps]
     count = {}
     for ss in syms:
         for x in ss:
             count[x] = count.get(x, 0) + 1
-    common = {x for x, c in count.items() if c > max(8, 0.4 * len(hyps))}
+    common = {x for x, c in count.items() if c > max(8, 0.3 * len(hyps))}
     defs = {}
     for i, h in enumerate(hyps):
         d = _defines(h)
@@ -64,31 +65,56 @@ def relevant_hyps(ob, mode):
             defs.setdefault(d, []).append(i)
     S = symbols(ob.goal) - common
     keep = set()
-    for _ in range(4):
-        grew = False
+    for _round in range(mode):
+        new = set()
+        for i, ss in enumerate(syms):
+            if i not in keep and (ss - common) & S:
+                new.add(i)
         for x in list(S):
             for i in defs.get(x, []):
                 if i not in keep:
-                    keep.add(i)
-                    new = syms[i] - common - S
-                    if new:
-                        S |= new
-                    grew = True
-        if not grew:
+                    new.add(i)
+        if not new:
             break
+        keep |= new
+        for i in new:
+            S |= syms[i] - common
     for i, h in enumerate(hyps):
         if i in keep:
             continue
-        rare = syms[i] - common
-        small_qf = (not z3.is_quantifier(h)) and len(syms[i]) <= 4 and "ForAll" not in h.sexpr()[:3000].replace("forall", "ForAll") and "exists" not in h.sexpr()[:3000]
-        if small_qf and (mode >= 1):
-            keep.add(i)
-        elif mode >= 2 and rare and rare <= S:
-            keep.add(i)
-        elif mode >= 3 and rare & S:
-            keep.add(i)
-        elif mode >= 2 and not rare and not z3.is_quantifier(h) and len(h.sexpr()) < 400:
-            keep.add(i)
+        if not z3.is_quantifier(h) and len(syms[i]) <= 4:
+            t = h.sexpr()
+            if len(t) < 600 and "forall" not in t and "exists" not in t:
+                keep.add(i)
+    return [hyps[i] for i in sorted(keep)]
+
+
+def definition_hyps(ob):
+    """only the definitional axioms reachable from the goal's symbols (transitively) + small quantifier-free facts"""
+    hyps = list(ob.hyps)
+    syms = [symbols(h) for h in hyps]
+    defs = {}
+    for i, h in enumerate(hyps):
+        d = _defines(h)
+        if d is not None:
+            defs.setdefault(d, []).append(i)
+    S = set(symbols(ob.goal))
+    keep = set()
+    work = list(S)
+    while work:
+        x = work.pop()
+        for i in defs.get(x, []):
+            if i not in keep:
+                keep.add(i)
+                for y in syms[i]:
+                    if y not in S:
+                        S.add(y)
+                        work.append(y)
+    for i, h in enumerate(hyps):
+        if i not in keep and not z3.is_quantifier(h) and len(syms[i]) <= 4:
+            t = h.sexpr()
+            if len(t) < 600 and "forall" not in t and "exists" not in t:
+                keep.add(i)
     return [hyps[i] for i in sorted(keep)]
 
 
@@ -108,12 +134,12 @@ def _uses(ob, name):
 
 
 Z3_CLI = os.environ.get("PYVC_Z3", "z3-new")
-SCHEDULE = (("rel2", 0, 4), ("all", 0, 6), ("rel1", 7, 5))       # first pass: everything in parallel, short budgets
+SCHEDULE = (("defs", 0, 3), ("rel2", 0, 4), ("all", 0, 6), ("rel1", 7, 5))       # first pass: everything in parallel, short budgets
 # (hypothesis selection, random seed, hard wall-clock seconds); "relN" = relevance closure of depth N (sound weakening)
 
 
 # second pass: only what is still undecided (at most FAIL_CAP obligations per clause), few at a time, long budgets
-RETRY_SCHEDULE = (("all", 0, 20), ("rel3", 7, 8), ("all", 42, 15), ("rel2", 99, 12), ("all", 3, 45))
+RETRY_SCHEDULE = (("all", 0, 20), ("defs", 7, 10), ("rel3", 7, 8), ("all", 42, 15), ("rel2", 99, 12), ("rel1", 3, 20), ("all", 3, 45))
 FALSE_GOAL_SCHEDULE = (("all", 0, 4),)      # `pc => False` (an exceptional edge that must be unreachable): quick, a refutation needs a model anyway
 
 
@@ -185,6 +211,8 @@ class Rec:
         self._smt = (smts or {}).get("all", "")
         self.nhyps = len(ob.hyps)
         self.false_goal = bool(z3.is_false(z3.simplify(ob.goal))) if smts is not None else False
+        import hashlib
+        self.h = hashlib.sha256(self._smt.encode()).hexdigest()[:24] if smts else None
 
     def key(self):
         return f"{self.func}::{self.kind}::{self.clause}"
@@ -221,6 +249,7 @@ def prepare(ob):
     if not ob.kind.startswith("canary") and len(ob.hyps) > 12 and ob.kind != "lemma":
         for d in (1, 2, 3):
             smts[f"rel{d}"] = to_smt2(ob, extra, hyps=relevant_hyps(ob, d))
+        smts["defs"] = to_smt2(ob, extra, hyps=definition_hyps(ob))
     return Rec(ob, smts)
 
 
